@@ -10,6 +10,8 @@
 //   alias  values handed to the writers by reference / pointer INTO the writer's own buffer (put<T>, pput<T>,
 //          write(ptr, n), write(str()), BufferWriter): the value written is the one the argument had at the call.
 //   big    StringReader over a sparse mapping of more than 4 GiB: every accessor at offsets >= 2^32.
+//   nest   a written stream decoded through sub-readers taken from readers whose cursor has moved (every constructor form,
+//          up to three levels) and through get<T>(advance, size) with an explicit encoded width larger than sizeof(T).
 #include "c01/codec.hh"
 
 // ---------------------------------------------------------------- seq
@@ -939,6 +941,243 @@ static void run_alias(const Case& c) {
   if (nops >= 1 && prefix >= 4) ctx().nontrivial_case();
 }
 
+// ---------------------------------------------------------------- nest
+//
+// "read back with the matching reader accessors ... each read advancing the cursor by exactly the encoded width", "all read
+// orders": a stream of appended fields decoded the way nested formats are decoded - part of it through sub-readers taken from a
+// reader whose cursor has already moved (sub / subx, one- and two-argument forms, up to three levels deep), part of it through the
+// templated get<T>(advance, size) with an explicit encoded width that covers the value AND the fields that follow it (a header
+// followed by trailing data), the rest through the ordinary accessors. The parent is built by each of the six constructor forms.
+//
+// Case: n[0] = flags (bits 0-2 constructor form 0..5; bits 8.. index of the field at which an initial-offset constructor places
+// the cursor, taken modulo nfields+1), then quadruples [kind, value, aux, act]:
+//   kind < 0x40 scalar (type | form << 4), appended with put_*;  K_BLOCK / K_CSTR with aux = blob index
+//   act bits 0-2: 0 ordinary read (bits 3-4 choose the block read form)
+//                 1 sub-reader starting at this field: bits 3-4 form (sub(o), sub(o,n), subx(o), subx(o,n)), bits 5-7 number of
+//                   fields covered - 1, bit 8: afterwards the parent skips the fields instead of reading them itself
+//                 2 get<T>(advance, size): bits 3-4 T (packed byte record / le_ / be_ unsigned of the field's width, uint8_t), bits 5-7 number
+//                   of fields the explicit size covers - 1, bit 8: a get<T>(false, size) peek first
+struct NField {
+  int kind;
+  size_t off, len;
+  unsigned type = 0, form = 0;
+  uint64_t bits = 0;
+  std::string text;
+  unsigned act = 0;
+};
+struct NestCtx {
+  const std::vector<uint8_t>& m;
+  const std::vector<NField>& f;
+  const char* ctor;
+  bool sub_from_moved_parent = false, wide_get = false;
+  size_t end_of(size_t j) const { return j < f.size() ? f[j].off : m.size(); }
+};
+static const char* kNestCtorName[6] = {"string", "ptr-size", "shared_ptr", "string+offset", "ptr-size+offset", "shared_ptr+offset"};
+static const char* kNestSubName[4] = {"sub(o)", "sub(o,n)", "subx(o)", "subx(o,n)"};
+
+// get<T>(advance, size) for T = packed byte record / le_ / be_ unsigned of width w, or uint8_t (all of alignment 1: a reference to a
+// native integer at an odd address would be the caller's undefined behaviour); returns the value and sizeof(T)
+template <size_t W>
+struct NestRec {
+  uint8_t b[W];
+} __attribute__((packed));
+template <size_t W>
+static uint64_t nest_rec_value(const NestRec<W>& v) {
+  uint64_t x = 0;
+  for (size_t k = 0; k < W; k++) x = x * 256 + v.b[k];
+  return x;
+}
+static uint64_t nest_get_explicit(StringReader& r, unsigned w, unsigned tsel, bool advance, size_t size, unsigned& tw, bool& big, std::string& name) {
+  big = false;
+  if (tsel == 3 || w == 1) {
+    tw = 1;
+    name = "uint8_t";
+    return r.get<uint8_t>(advance, size);
+  }
+  tw = w;
+  big = (tsel == 2 || tsel == 0);
+  switch (w * 4 + tsel) {
+    case 2 * 4 + 0: name = "record2"; return nest_rec_value(r.get<NestRec<2>>(advance, size));
+    case 2 * 4 + 1: name = "le_uint16_t"; return r.get<phosg::le_uint16_t>(advance, size);
+    case 2 * 4 + 2: name = "be_uint16_t"; return r.get<phosg::be_uint16_t>(advance, size);
+    case 4 * 4 + 0: name = "record4"; return nest_rec_value(r.get<NestRec<4>>(advance, size));
+    case 4 * 4 + 1: name = "le_uint32_t"; return r.get<phosg::le_uint32_t>(advance, size);
+    case 4 * 4 + 2: name = "be_uint32_t"; return r.get<phosg::be_uint32_t>(advance, size);
+    case 8 * 4 + 0: name = "record8"; return nest_rec_value(r.get<NestRec<8>>(advance, size));
+    case 8 * 4 + 1: name = "le_uint64_t"; return r.get<phosg::le_uint64_t>(advance, size);
+    case 8 * 4 + 2: name = "be_uint64_t"; return r.get<phosg::be_uint64_t>(advance, size);
+  }
+  throw std::logic_error("nest: bad explicit-get type");
+}
+
+// Reads fields [i0, i1) through r, whose byte 0 is byte `base` of the stream and whose cursor stands at field i0.
+static void nest_decode(NestCtx& x, StringReader& r, size_t base, size_t i0, size_t i1, unsigned depth, bool plain) {
+  const char* lvl = depth == 0 ? "parent" : "sub-reader";
+  size_t i = i0;
+  while (i < i1) {
+    const NField& f = x.f[i];
+    size_t rel = f.off - base;
+    VCHECK(r.where() == rel, cat("nest-cursor:", lvl), "cursor of the ", lvl, " (depth ", depth, ", built from ", x.ctor, ") is ", r.where(), " before the field at ", rel, " (stream offset ", f.off, ")");
+    // the first field of a sub-reader is read, not sub-divided again (a sub-reader of a fresh sub-reader adds nothing)
+    unsigned act = (plain || (depth > 0 && i == i0 && (f.act & 7) == 1)) ? 0 : (f.act & 7);
+    size_t j = std::min(i + 1 + ((f.act >> 5) & 7), i1);
+    size_t span = x.end_of(j) - f.off;
+    try {
+      if (act == 1 && depth < 3) {
+        unsigned form = (f.act >> 3) & 3;
+        size_t before = r.where();
+        StringReader s = form == 0 ? r.sub(rel) : form == 1 ? r.sub(rel, span) : form == 2 ? r.subx(rel) : r.subx(rel, span);
+        size_t want = (form & 1) ? span : r.size() - rel;
+        if (before != 0) x.sub_from_moved_parent = true;
+        ctx().cls(cat("nest:", kNestSubName[form], before ? "-cursor-moved" : "-cursor-0"));
+        VCHECK(s.where() == 0, cat("sub-fresh-cursor:", x.ctor), kNestSubName[form], " (", rel, ", ", span, ") of a reader built from ", x.ctor, " with its cursor at ", before, ": where() of the new sub-reader is ", s.where(), ", expected 0");
+        VCHECK(s.size() == want && s.remaining() == want && s.eof() == (want == 0), "sub-extent", kNestSubName[form], " (", rel, ", ", span, ") of ", r.size(), " bytes: size ", s.size(), " remaining ", s.remaining(), " eof ", s.eof(), ", expected ", want);
+        VCHECK(r.where() == before, "sub-moved-parent", kNestSubName[form], " moved the parent's cursor from ", before, " to ", r.where());
+        nest_decode(x, s, f.off, i, j, depth + 1, false);
+        VCHECK(s.where() == span, cat("nest-cursor-end:", kNestSubName[form]), "after reading its fields the sub-reader's cursor is ", s.where(), ", they span ", span);
+        if (form & 1) VCHECK(s.eof() && s.remaining() == 0, "sub-eof", "sub-reader of exactly ", span, " bytes: eof() false after reading them all");
+        VCHECK(r.where() == before, "sub-moved-parent", "reading through the sub-reader moved the parent's cursor from ", before, " to ", r.where());
+        if (f.act & 0x100) {
+          r.skip(span);
+          VCHECK(r.where() == rel + span, "advance:skip", "skip(", span, ") moved the cursor from ", rel, " to ", r.where());
+        } else {
+          nest_decode(x, r, base, i, j, depth, true);
+        }
+        i = j;
+        continue;
+      }
+      if (act == 2 && f.len >= 1) {
+        unsigned w = f.kind == FK_SCALAR ? static_cast<unsigned>(f.len) : 1, tw = 0;
+        bool big = false;
+        std::string nm;
+        if (span > f.len) x.wide_get = true;
+        if (f.act & 0x100) {
+          uint64_t pv = nest_get_explicit(r, w, (f.act >> 3) & 3, false, span, tw, big, nm);
+          uint64_t pe = ref_decode(x.m.data() + f.off, tw, big, false);
+          VCHECK(pv == pe, cat("decode:get<", nm, ">(size)"), "get<", nm, ">(false, ", span, ") at ", rel, " returned ", pv, ", independent decoder ", pe);
+          VCHECK(r.where() == rel, "peek-advanced:get<T>(size)", "get<", nm, ">(false, ", span, ") moved the cursor from ", rel, " to ", r.where());
+        }
+        uint64_t v = nest_get_explicit(r, w, (f.act >> 3) & 3, true, span, tw, big, nm);
+        uint64_t e = ref_decode(x.m.data() + f.off, tw, big, false);
+        ctx().cls(span > tw ? "nest:get<T>-size>sizeof" : "nest:get<T>-size=sizeof");
+        VCHECK(v == e, cat("decode:get<", nm, ">(size)"), "get<", nm, ">(true, ", span, ") at ", rel, " returned ", v, ", independent decoder ", e);
+        VCHECK(r.where() == rel + span, "advance:get<T>(size)", "get<", nm, ">(true, ", span, ") (sizeof ", tw, ", encoded width ", span, ") moved the cursor from ", rel, " to ", r.where(), ", expected ", rel + span);
+        i = j;
+        continue;
+      }
+      switch (f.kind) {
+        case FK_SCALAR: {
+          bool fbig = form_is_big(f.form);
+          std::string nm = reader_name(f.type, fbig);
+          uint64_t expect = ref_decode(x.m.data() + f.off, f.len, fbig, kSigned[f.type]);
+          uint64_t got = call_get(r, f.type, fbig, true);
+          VCHECK(got == expect, cat("nest-decode:get_", nm), "get_", nm, " on the ", lvl, " (depth ", depth, ", ", x.ctor, ") at ", rel, " returned ", got, ", independent decoder ", expect);
+          VCHECK(got == written_ext(f.type, f.bits), cat("nest-roundtrip:", scalar_name(f.type, f.form)), "put_", scalar_name(f.type, f.form), "(", written_ext(f.type, f.bits), ") read back through the ", lvl, " as ", got);
+          VCHECK(r.where() == rel + f.len, cat("advance:get_", nm), "get_", nm, " moved the cursor from ", rel, " to ", r.where());
+          break;
+        }
+        case FK_CSTR: {
+          std::string sgot = r.get_cstr();
+          VCHECK(sgot == f.text, "nest-roundtrip:cstr", "get_cstr on the ", lvl, " (depth ", depth, ", ", x.ctor, ") at ", rel, " returned ", hex(sgot), " expected ", hex(f.text));
+          VCHECK(r.where() == rel + f.len, "advance:get_cstr", "get_cstr moved the cursor from ", rel, " to ", r.where());
+          break;
+        }
+        default: {
+          std::string got;
+          const char* how;
+          switch ((f.act >> 3) & 3) {
+            case 0: how = "read"; got = r.read(f.len); break;
+            case 1: how = "readx"; got = r.readx(f.len); break;
+            case 2: how = "getv"; got.assign(reinterpret_cast<const char*>(r.getv(f.len)), f.len); break;
+            default:
+              how = "peek+skip";
+              got.assign(r.peek(f.len), f.len);
+              r.skip(f.len);
+              break;
+          }
+          VCHECK(got == f.text, "nest-roundtrip:block", how, "(", f.len, ") on the ", lvl, " (depth ", depth, ", ", x.ctor, ") at ", rel, " returned ", hex(got), " written ", hex(f.text));
+          VCHECK(r.where() == rel + f.len, cat("advance:", how), how, " moved the cursor from ", rel, " to ", r.where());
+          break;
+        }
+      }
+    } catch (const std::out_of_range& ex) {
+      VFAIL(cat("nest-in-range-read-throws:", lvl), "reading the field at ", rel, " (", f.len, " bytes, action ", act, ") of the ", lvl, " (depth ", depth, ", size ", r.size(), ", cursor ", r.where(), ", ", x.ctor, ") threw out_of_range: ", ex.what());
+    }
+    i++;
+  }
+}
+
+static void run_nest(const Case& c) {
+  if (c.n.size() < 5 || (c.n.size() - 1) % 4 != 0) throw std::logic_error("nest: malformed case");
+  uint64_t flags = c.u(0);
+  unsigned ctor = flags & 7;
+  if (ctor > 5) throw std::logic_error("nest: bad constructor form");
+  size_t nf = (c.n.size() - 1) / 4;
+  std::vector<uint8_t> m;
+  std::vector<NField> fields;
+  StringWriter sw;
+  for (size_t k = 0; k < nf; k++) {
+    uint64_t kind = c.u(1 + 4 * k), value = c.u(2 + 4 * k), aux = c.u(3 + 4 * k);
+    NField f{FK_SCALAR, m.size(), 0};
+    f.act = static_cast<unsigned>(c.u(4 + 4 * k)) & 0x1FF;
+    if (kind < 0x40) {
+      f.type = kind & 15;
+      f.form = (kind >> 4) & 3;
+      if (!valid_scalar(f.type, f.form)) throw std::logic_error("nest: bad scalar kind");
+      f.len = kWidth[f.type];
+      f.bits = value;
+      uint8_t enc[8];
+      ref_encode(enc, f.len, form_is_big(f.form), value & width_mask(f.len));
+      m.insert(m.end(), enc, enc + f.len);
+      do_put(sw, f.type, f.form, value);
+    } else if (kind == K_BLOCK || kind == K_CSTR) {
+      f.text = c.str(aux);
+      f.kind = kind == K_BLOCK ? FK_BLOCK : FK_CSTR;
+      f.len = f.text.size();
+      m.insert(m.end(), f.text.begin(), f.text.end());
+      sw.write(f.text);
+      if (kind == K_CSTR) {
+        if (f.text.find('\0') != std::string::npos) throw std::logic_error("nest: NUL inside a C string");
+        sw.put_u8(0);
+        m.push_back(0);
+        f.len++;
+      }
+    } else {
+      throw std::logic_error("nest: unknown field kind");
+    }
+    fields.push_back(f);
+  }
+  std::string data = sw.str();
+  VCHECK(data == bytes_of(m, 0, m.size()), "nest-layout", "str() is ", hex(data), ", independent encoder ", hex(bytes_of(m, 0, m.size())));
+
+  size_t h = ctor >= 3 ? (flags >> 8) % (nf + 1) : 0;
+  size_t off0 = h < nf ? fields[h].off : m.size();
+  std::shared_ptr<std::string> shared;
+  std::unique_ptr<StringReader> rp;
+  switch (ctor) {
+    case 0: rp.reset(new StringReader(data)); break;
+    case 1: rp.reset(new StringReader(data.data(), data.size())); break;
+    case 2:
+      shared = std::make_shared<std::string>(data);
+      rp.reset(new StringReader(shared));
+      break;
+    case 3: rp.reset(new StringReader(data, off0)); break;
+    case 4: rp.reset(new StringReader(data.data(), data.size(), off0)); break;
+    default:
+      shared = std::make_shared<std::string>(data);
+      rp.reset(new StringReader(shared, off0));
+      break;
+  }
+  StringReader& r = *rp;
+  ctx().cls(cat("nest:ctor-", kNestCtorName[ctor]));
+  VCHECK(r.size() == m.size() && r.where() == off0 && r.remaining() == m.size() - off0, "reader-init", "fresh reader (", kNestCtorName[ctor], ", initial offset ", off0, "): size ", r.size(), " where ", r.where(), " remaining ", r.remaining());
+  NestCtx x{m, fields, kNestCtorName[ctor]};
+  nest_decode(x, r, 0, h, nf, 0, false);
+  VCHECK(r.where() == m.size() && r.eof() && r.remaining() == 0, "cursor-end", "after reading every field the cursor is ", r.where(), " of ", m.size());
+  if (shared) VCHECK(*shared == data, "nest-shared-string-changed", "the caller's string changed while it was read");
+  if (x.sub_from_moved_parent || x.wide_get) ctx().nontrivial_case();
+}
+
 // ---------------------------------------------------------------- generators
 
 static uint64_t gen_scalar_bits(unsigned type) {
@@ -1028,6 +1267,34 @@ static Case gen_seq() {
       uint64_t n = vg::below(20);
       c.N(vg::coin() ? K_EXTBY : K_EXTTO).N(n).N(vg::pick<uint64_t>({0, 0, 0xFF, 0x41, 0x0A}));
       size += n;
+    }
+  }
+  return c;
+}
+
+static Case gen_nest() {
+  Case c("nest");
+  uint64_t nf = 1 + vg::scaled(15);
+  c.N(vg::below(6) | (vg::below(nf + 1) << 8));
+  for (uint64_t k = 0; k < nf; k++) {
+    uint64_t act;
+    switch (vg::below(4)) {
+      case 0: act = 1; break;
+      case 1: act = 2; break;
+      default: act = 0; break;
+    }
+    act |= vg::below(64) << 3; // form / type choice, number of fields covered, skip / peek bit
+    if (vg::chance(1, 2)) act &= ~static_cast<uint64_t>(0xC0); // mostly 1..2 fields, sometimes up to 8
+    uint64_t pick = vg::below(10);
+    if (pick < 6) {
+      uint64_t kind = gen_scalar_kind();
+      c.N(kind).N(gen_scalar_bits(kind & 15)).N(0).N(act);
+    } else if (pick < 8) {
+      c.N(K_BLOCK).N(0).N(c.s.size()).N(act);
+      c.S(vg::bytes(vg::below(13)));
+    } else {
+      c.N(K_CSTR).N(0).N(c.s.size()).N(act);
+      c.S(vg::bytes_from(std::string("ab\r\n\x01\xff z", 8), vg::below(9)));
     }
   }
   return c;
@@ -1233,6 +1500,53 @@ static void enum_alias(Enum& e) {
       "write(str()) of the writer's own data; BufferWriter put<T>/pput<T>/pwrite between disjoint places of its own buffer"));
 }
 
+// every constructor form x every place of one sub-reader / explicit-width get in three fixed layouts x every form of it
+static void enum_nest(Enum& e) {
+  uint64_t idx = 0;
+  for (unsigned layout = 0; layout < 3 && !e.stop; layout++) {
+    for (unsigned ctor = 0; ctor < 6; ctor++) {
+      for (unsigned h = 0; h < (ctor >= 3 ? 3u : 1u); h++, idx++) {
+        if (!e.mine(idx)) continue;
+        const unsigned nf = 6;
+        for (unsigned p = 0; p < nf; p++) {
+          for (unsigned act = 1; act <= 2; act++) {
+            for (unsigned rest = 0; rest < 64; rest++) {
+              if (((rest >> 2) & 7) > 3) continue; // 1..4 fields covered
+              for (unsigned inner = 0; inner < 3; inner++) {
+                // inner: 0 nothing else; 1 a second sub-reader one field later (nested when the first covers it); 2 an explicit-width get one field later
+                Case c("nest");
+                c.N(ctor | (static_cast<uint64_t>(h) << 8));
+                for (unsigned k = 0; k < nf; k++) {
+                  uint64_t a = 0;
+                  if (k == p) a = act | (rest << 3);
+                  else if (k == p + 1 && inner == 1) a = 1 | (((rest + 1) & 3) << 3) | (1u << 5);
+                  else if (k == p + 1 && inner == 2) a = 2 | ((rest & 3) << 3) | (1u << 5);
+                  unsigned sel = (layout * 5 + k * 3) % 7;
+                  switch (layout == 2 && k % 3 == 1 ? 7 + k % 2 : sel) {
+                    case 0: c.N(T_U8).N(0x81 + k).N(0).N(a); break;
+                    case 1: c.N(T_U16 | (F_BIG << 4)).N(0x8002 + k).N(0).N(a); break;
+                    case 2: c.N(T_U32 | (F_LITTLE << 4)).N(0x80000003u + k).N(0).N(a); break;
+                    case 3: c.N(T_S64 | (F_BIG << 4)).N(0x8000000000000004ULL + k).N(0).N(a); break;
+                    case 4: c.N(T_S16 | (F_NATIVE << 4)).N(0xFF05 + k).N(0).N(a); break;
+                    case 5: c.N(T_F32 | (F_REV << 4)).N(0x7FC00006u + k).N(0).N(a); break;
+                    case 6: c.N(T_U64 | (F_LITTLE << 4)).N(0x0102030405060708ULL + k).N(0).N(a); break;
+                    case 7: c.N(K_BLOCK).N(0).N(c.s.size()).N(a); c.S(std::string("\x01\x00\xfe", 3) + static_cast<char>('A' + k)); break;
+                    default: c.N(K_CSTR).N(0).N(c.s.size()).N(a); c.S(std::string("s") + static_cast<char>('a' + k)); break;
+                  }
+                }
+                e.exec(c);
+              }
+            }
+          }
+        }
+      }
+    }
+  }
+  e.complete("three layouts of six fields (scalars of every width and form; with blocks and C strings) x the six constructor forms (initial-offset forms starting at field 0, 1, 2) x a "
+             "sub-reader (sub(o), sub(o,n), subx(o), subx(o,n); parent skips or re-reads) or a get<T>(advance, size) (T packed record/le_/be_/uint8_t, with and without a peek) "
+             "at every field, covering 1..4 fields, alone or followed by a second sub-reader / explicit-width get at the next field (nested inside the first sub-reader when that covers it)");
+}
+
 // every value of every 16-bit (and 8-bit) accessor pair, appended and positional, plus boundary values of the wider ones
 static void enum_seq(Enum& e) {
   uint64_t idx = 0;
@@ -1362,5 +1676,6 @@ int main(int argc, char** argv) {
   checks.push_back({"bits", run_bits, gen_bits, 120000, 600000, 100, enum_bits});
   checks.push_back({"alias", run_alias, gen_alias, 60000, 400000, 100, enum_alias});
   checks.push_back({"big", run_big, gen_big, 240, 2400, 100, enum_big});
+  checks.push_back({"nest", run_nest, gen_nest, 80000, 600000, 100, enum_nest});
   return main_(argc, argv, checks);
 }
